@@ -221,7 +221,9 @@ def main(prop, tier, replay_path=None):
         small, tried = (case, 0)
         if case is not None and hasattr(prop, "shrink_candidates") and \
                 new_violations <= cfg.get("shrink_max_signatures", 4):
-            small, tried = shrink(prop, case, sig, budget_s=cfg.get("shrink_budget_s", 30.0),
+            small, tried = shrink(prop, case, sig,
+                                  budget_s=float(os.environ.get("VERIF_SHRINK_S") or
+                                                 cfg.get("shrink_budget_s", 30.0)),
                                   timeout=run_timeout)
         path = write_replay(prop, small, sig, detail, seed, tier)
         print("violation %s @ %s (shrunk with %d trial runs): %s" % (sig[0], sig[1], tried,
